@@ -33,25 +33,25 @@ Proof. intros H. unfold zlen. rewrite skipn_length. lia. Qed.
 
 (* ---------- observables of frames ---------- *)
 Definition req_of (f : frame) : Z :=
-  match f with IFrame _ r _ _ _ => r | SFrame _ _ _ r => r end.
+  match f with IFrame _ r _ _ _ _ => r | SFrame _ _ _ r => r end.
 
 Definition key := (Z * sar * Z * list Z)%type.
 Definition pkey (p : pdu) : key :=
   (p_tx p, g_sar (p_seg p),
    match g_sar (p_seg p) with START => g_len (p_seg p) | _ => 0 end, g_data (p_seg p)).
 Definition fkeys (f : frame) : list key :=
-  match f with IFrame tx _ s l d => [(tx, s, l, d)] | SFrame _ _ _ _ => [] end.
+  match f with IFrame tx _ s l d _ => [(tx, s, l, d)] | SFrame _ _ _ _ => [] end.
 Definition ikeys (fs : list frame) : list key := flat_map fkeys fs.
 
 (* the only supervisory frames that travel are RR (with or without P / F) *)
 Definition sframe_ok (f : frame) : Prop :=
-  match f with SFrame func _ _ _ => func = RR | IFrame _ _ _ _ _ => True end.
+  match f with SFrame func _ _ _ => func = RR | IFrame _ _ _ _ _ _ => True end.
 
 (* polls (P=1) and poll answers (F=1 supervisory frames) on a channel *)
 Definition is_poll (f : frame) : bool :=
-  match f with SFrame _ p _ _ => p | IFrame _ _ _ _ _ => false end.
+  match f with SFrame _ p _ _ => p | IFrame _ _ _ _ _ _ => false end.
 Definition is_final (f : frame) : bool :=
-  match f with SFrame _ _ fin _ => fin | IFrame _ _ _ _ _ => false end.
+  match f with SFrame _ _ fin _ => fin | IFrame _ _ _ _ _ _ => false end.
 Definition npolls (fs : list frame) : Z := zlen (filter is_poll fs).
 Definition nfinals (fs : list frame) : Z := zlen (filter is_final fs).
 
@@ -179,18 +179,18 @@ Proof.
 Qed.
 
 (* what Y's receiver fields look like after Y has processed a frame it accepts *)
-Lemma on_frame_rcv_i e tx req s l data e' out sdus :
-  on_frame e (IFrame tx req s l data) = (e', out, sdus) ->
+Lemma on_frame_rcv_i e tx req s l data fin e' out sdus :
+  on_frame e (IFrame tx req s l data fin) = (e', out, sdus) ->
   e_lackrx e = e_req e -> tx = e_req e ->
   e_req e' = (tx + 1) mod 64 /\ e_lackrx e' = e_req e' /\
   (exists k, map req_of out = repeat (e_req e) k ++ [e_req e']) /\
   Forall sframe_ok out /\
   (if delivers s then sdus = [e_insdu e ++ data] /\ e_insdu e' = []
    else sdus = [] /\ e_insdu e' = e_insdu e ++ data) /\
-  ikeys out = ikeys (snd (update_ack e req true)).
+  ikeys out = ikeys (snd (update_ack e req fin)).
 Proof.
   cbn [on_frame]. intros H Hlar ->.
-  destruct (update_ack e req true) as [e1 out1] eqn:Hu.
+  destruct (update_ack e req fin) as [e1 out1] eqn:Hu.
   pose proof (update_ack_rcv _ _ _ _ _ Hu) as (R1 & R2 & R3 & R4).
   rewrite R1, Z.eqb_refl in H. cbn [negb] in H.
   cbn [e_req e_lackrx send_rr] in H.
@@ -251,21 +251,21 @@ Lemma on_frame_snd e f e' out sdus :
     e_lack e' = e_lack e1 /\ e_pend e' = e_pend e1 /\ e_txw e' = e_txw e1 /\
     (e_busy e' = e_busy e1 \/ e_busy e' = false) /\ e_mon e' = e_mon e1.
 Proof.
-  destruct f as [tx req s l data | func poll final req]; cbn [on_frame req_of sframe_ok is_final].
-  - intros H _. destruct (update_ack e req true) as [e1 out1] eqn:Hu.
-    exists true, e1, out1.
+  destruct f as [tx req s l data ifin | func poll final req]; cbn [on_frame req_of sframe_ok is_final].
+  - intros H _. destruct (update_ack e req ifin) as [e1 out1] eqn:Hu.
+    exists ifin, e1, out1.
     destruct (negb (tx =? e_req e1)).
-    + injection H as <- <- <-. exists []. rewrite app_nil_r. repeat split; auto.
+    + injection H as <- <- <-. exists []. rewrite app_nil_r. repeat split; auto; try discriminate.
     + match type of H with (if ?c then _ else _) = _ => destruct c end.
-      * injection H as <- <- <-. exists []. rewrite app_nil_r. cbn. repeat split; auto.
+      * injection H as <- <- <-. exists []. rewrite app_nil_r. cbn. repeat split; auto; try discriminate.
       * cbn in H. injection H as <- <- <-. eexists. cbn.
-        repeat split; auto. constructor; [reflexivity|constructor].
+        repeat split; auto; try discriminate. constructor; [reflexivity|constructor].
   - intros H ->. destruct (update_ack e req final) as [e1 out1] eqn:Hu.
     change ((RR =? RR) || (RR =? RNR)) with true in H. cbn [andb] in H.
     exists final, e1, out1. destruct poll.
     + cbn in H. injection H as <- <- <-. eexists. cbn.
-      repeat split; auto. constructor; [reflexivity|constructor].
-    + injection H as <- <- <-. exists []. rewrite app_nil_r. cbn. repeat split; auto.
+      repeat split; auto; try discriminate. constructor; [reflexivity|constructor].
+    + injection H as <- <- <-. exists []. rewrite app_nil_r. cbn. repeat split; auto; try discriminate.
 Qed.
 
 (* ---------- process_output re-establishes the strict invariant ---------- *)
@@ -447,7 +447,7 @@ Lemma rcv_frame X Y f fwd bwd lg W S Y' out sdus :
   dinvE X Y' fwd (bwd ++ out) lg W (S ++ sdus).
 Proof.
   intros (done & rcv & infl & rs & I) H. pose proof I as [].
-  destruct f as [tx req s l data | func poll final req].
+  destruct f as [tx req s l data ifin | func poll final req].
   - (* I-frame: it is the next expected one *)
     cbn [ikeys flat_map fkeys app] in d_fwd0.
     destruct infl as [|p infl']; [discriminate|].
@@ -458,7 +458,7 @@ Proof.
         by (now rewrite <- !app_assoc).
       apply number_head in d_num0. now rewrite zlen_app, Z.add_0_l in d_num0. }
     assert (Hacc : tx = e_req Y) by congruence.
-    destruct (on_frame_rcv_i _ _ _ _ _ _ _ _ _ H d_lar0 Hacc)
+    destruct (on_frame_rcv_i _ _ _ _ _ _ _ _ _ _ H d_lar0 Hacc)
       as (R1 & R2 & (k & R3) & R4 & R5 & _).
     exists done, (rcv ++ [p]), infl',
            (rs ++ repeat (zlen done + zlen rcv) k ++ [zlen done + zlen rcv + 1]).
